@@ -100,13 +100,14 @@ class C06(Prop):
             return {"invalid_input": type(e).__name__}
         pre, log, out = self._run(case)
         irs = [pre] + [a for (_, _, _, a, *_r) in log]
-        progs = []
+        progs, convs = [], []
         for t in irs:
             try:
-                _, _, c = convert(t, carried=False)
+                m, _, c = convert(t, carried=True)
             except ac.Unsupported as e:
                 return {"unmodelled": str(e), "n_steps": len(log), "kinds": ["oracle-only"], "d26_steps": loop_steps_with_other_setups(log)}
-            progs.append({"prog": c.program(), "points": ac.real_inference_at_points(c)})
+            convs.append((m, c))
+            progs.append({"prog": c.program(), "points": ac.real_inference_at_points(c), "carried": bool(c.has_carried)})
         # block-level steps: the move performed by the real pattern, as (block path + start of the segment, flags)
         moves = []
         for k, (name, path, before, after, *rest) in enumerate(log):
@@ -123,16 +124,34 @@ class C06(Prop):
             seg_after = perm[start:end + 1]           # before-positions in their new order
             cut = seg_after.index(start)              # the first staying statement is the one that was at `start`
             moved = set(seg_after[:cut])
-            flags = [(q in moved) for q in range(start, end + 1)]
-            mp = model_path(path)
-            moves.append({"step": k, "path": mp[:-1] + [start], "flags": flags,
+            mb, cb = convs[k]
+            try:
+                # model statement indices of the segment (a loop with carried values occupies several statements)
+                ops = list(cb.block_at(path, mb).ops)
+                mp = cb.map_path(path, mb)
+                first = cb.stmt_index[ops[start]]
+                last = cb.span_end[ops[end]]
+                owner = {}
+                for q in range(start, end + 1):
+                    for z in range(cb.stmt_index[ops[q]], cb.span_end[ops[q]] + 1):
+                        owner[z] = q
+                flags = [(owner.get(z) in moved) for z in range(first, last + 1)]
+            except (ac.Unsupported, KeyError) as e:
+                moves.append({"step": k, "skip": f"position outside the model ({e})"})
+                continue
+            moves.append({"step": k, "path": mp[:-1] + [first], "flags": flags, "carried": progs[k]["carried"],
                           "ok_order": seg_after[:cut] == sorted(seg_after[:cut]) and seg_after[cut:] == sorted(seg_after[cut:])})
         # loop-level steps: anchored at the loop, j = index of the matched setup in its body
         loops = []
         for k, (name, path, before, after, *rest) in enumerate(log):
             if name == "LoopLevelSetupAwaitOverlapPattern":
-                mp = model_path(path)
-                loops.append({"step": k, "path": mp[:-2], "j": mp[-1]})
+                mb, cb = convs[k]
+                try:
+                    mp = cb.map_path(path, mb)
+                except (ac.Unsupported, KeyError) as e:
+                    loops.append({"step": k, "skip": str(e)})
+                    continue
+                loops.append({"step": k, "path": mp[:-2], "j": mp[-1], "carried": progs[k]["carried"]})
         kinds = sorted({n.replace("SetupAwaitOverlapPattern", "") for (n, *_r) in log})
         return {"progs": progs, "n_steps": len(log), "kinds": kinds, "d26_steps": loop_steps_with_other_setups(log),
                 "moves": moves, "loops": loops}
@@ -144,11 +163,13 @@ class C06(Prop):
             return []
         reqs = [{"fn": "c07.analyse", "args": {"body": p["prog"]["body"], "fields": p["prog"]["fields"]}} for p in impl_out["progs"]]
         for m in impl_out.get("moves", []):
-            if "error" in m:
+            if "error" in m or "skip" in m:
                 continue
             before = impl_out["progs"][m["step"]]["prog"]   # progs[0] = input of the pass, progs[k+1] = after step k
             reqs.append({"fn": "c06.move", "args": {"path": m["path"], "flags": m["flags"], "body": before["body"]}})
         for m in impl_out.get("loops", []):
+            if "skip" in m:
+                continue
             before = impl_out["progs"][m["step"]]["prog"]
             reqs.append({"fn": "c06.loop", "args": {"path": m["path"], "j": m["j"], "fresh": before["nvars"] + 1000, "body": before["body"],
                                                     "fields": before["fields"]}})
@@ -163,18 +184,35 @@ class C06(Prop):
         progs = []
         n = len(impl_out["progs"])
         for p, a in zip(impl_out["progs"], answers[:n]):
+            if p.get("carried"):
+                # programs with loop-carried data values / conditional data results (desugared by the converter): best effort —
+                # what the model reproduces counts as certified, what it does not is validated by the oracle only
+                good = "ok" in a and a["ok"]["wf"] and [sorted(x) for x in a["ok"]["annot"]] == p["points"]
+                self.loop_cov["carried_programs_facts_agree" if good else "carried_programs_facts_oracle_only"] += 1
+                progs.append(p)
+                continue
             if "err" in a:
                 return {"model_error": a["err"]}
             if not a["ok"]["wf"]:
                 return {"model_error": "intermediate program violates the SSA well-formedness predicate of the theorems"}
-            progs.append({"prog": p["prog"], "points": [sorted(x) for x in a["ok"]["annot"]]})
+            progs.append({"prog": p["prog"], "points": [sorted(x) for x in a["ok"]["annot"]], "carried": False})
         # certified block moves: the model's result must be the real IR after the step
         k = n
         for m in impl_out.get("moves", []):
             if "error" in m:
                 return {"model_error": m["error"]}
+            if "skip" in m:
+                self.loop_cov["block_moves_oracle_only"] += 1
+                continue
             a = answers[k]
             k += 1
+            if m.get("carried"):
+                real_after = impl_out["progs"][m["step"] + 1]["prog"]["body"]
+                good = ("ok" in a and a["ok"]["after"] is not None and m["ok_order"] and a["ok"]["wf"] and a["ok"]["nodup"]
+                        and ac.canon_ast(a["ok"]["after"]) == ac.canon_ast(real_after))
+                self.loop_cov["carried_block_moves_certified" if good else "carried_block_moves_oracle_only"] += 1
+                continue
+            self.loop_cov["block_moves_certified"] += 1
             if "err" in a:
                 return {"model_error": a["err"]}
             if a["ok"]["after"] is None:
@@ -187,8 +225,17 @@ class C06(Prop):
                 return {"model_error": f"certified block move of step {m['step']} does not reproduce the real rewrite", "move": m}
         # loop-level steps: the model rule must reproduce the real rewrite
         for m in impl_out.get("loops", []):
+            if "skip" in m:
+                self.loop_cov["loop_steps_oracle_only"] += 1
+                continue
             a = answers[k]
             k += 1
+            if m.get("carried"):
+                real_after = impl_out["progs"][m["step"] + 1]["prog"]["body"]
+                good = ("ok" in a and a["ok"]["after"] is not None and a["ok"]["covered"]
+                        and ac.canon_ast(a["ok"]["after"]) == ac.canon_ast(real_after))
+                self.loop_cov["carried_loop_steps_certified" if good else "carried_loop_steps_oracle_only"] += 1
+                continue
             if "err" in a:
                 return {"model_error": a["err"]}
             if a["ok"]["after"] is None:
